@@ -17,9 +17,9 @@ Record registry := {
 Definition empty_registry : registry := {| r_key := []; r_filter := []; r_cond := []; r_upd := [] |}.
 
 Definition is_space (b : byte) : bool :=
-  let n := b2n b in (N.eqb n 32 || N.eqb n 9 || N.eqb n 10 || N.eqb n 11 || N.eqb n 12 || N.eqb n 13)%N.
+  let n := b2n b in (N.eqb n 32 || N.eqb n 9 || N.eqb n 10 || N.eqb n 13)%N.   (* the lexer's whitespace, nothing else (fix 21a3e12) *)
 
-(* strings.Fields on ASCII *)
+(* strings.FieldsFunc(s, isExpressionSpace) *)
 Fixpoint fields_aux (s : str) (cur : str) : list str :=
   match s with
   | [] => match cur with [] => [] | _ => [rev cur] end
@@ -31,7 +31,19 @@ Definition fields (s : str) : list str := fields_aux s [].
 
 (* hashExpressionKey *)
 Definition norm_expr (s : str) : str := join (bs " ") (fields s).
-Definition reg_key (table expr : str) : str := table ++ bs "|" ++ norm_expr expr.
+(* strconv.Itoa *)
+Fixpoint dec_str (u : Decimal.uint) : str :=
+  match u with
+  | Decimal.Nil => []
+  | Decimal.D0 r => "0"%byte :: dec_str r | Decimal.D1 r => "1"%byte :: dec_str r | Decimal.D2 r => "2"%byte :: dec_str r
+  | Decimal.D3 r => "3"%byte :: dec_str r | Decimal.D4 r => "4"%byte :: dec_str r | Decimal.D5 r => "5"%byte :: dec_str r
+  | Decimal.D6 r => "6"%byte :: dec_str r | Decimal.D7 r => "7"%byte :: dec_str r | Decimal.D8 r => "8"%byte :: dec_str r
+  | Decimal.D9 r => "9"%byte :: dec_str r
+  end.
+Definition itoa (n : nat) : str := dec_str (Nat.to_uint n).
+
+(* registrationKey (fix cbdfecf): the length of the table name keeps (table, expression) pairs apart *)
+Definition reg_key (table expr : str) : str := itoa (List.length table) ++ bs "|" ++ table ++ bs "|" ++ norm_expr expr.
 
 Definition reg_matchers (r : registry) (k : ekind) : fmap (nat * bool) :=
   match k with KKey => r_key r | KFilter => r_filter r | KCond => r_cond r end.
@@ -200,7 +212,7 @@ Definition t_put (c : ictx) (t : table) (it : item) (cond : option str) (names :
       | Ok (true, f) =>
           if validate_index_keys (t_defs t) (t_indexes t) it
           then let t1 := set_item t key it in
-               (with_indexes t1 (put_indexes (t_defs t) key it (t_indexes t1)), WOk None f)
+               (with_indexes t1 (put_indexes (t_defs t) key it (t_indexes t1)), WOk (lookup key (t_data t)) f)
           else (t, WErr Validation)
       | Ok (false, f) => (t, WCondFailed (get_item t key) f)
       | Err e => (t, WErr e)
@@ -219,7 +231,7 @@ Definition t_update (c : ictx) (t : table) (key_item : item) (expr : str) (cond 
       let cur := match stored with Some i => i | None => [] end in
       match check_cond c t cur cond names vals with
       | Ok (true, f) =>
-          let base := match stored with Some i => i | None => key_item end in
+          let base := match stored with Some i => i | None => Key.key_item (t_ks t) key_item end in
           match interp_update c (t_name t) expr base vals names with
           | Ok (it', f') =>
               if validate_index_keys (t_defs t) (t_indexes t) it'
